@@ -86,9 +86,9 @@ def run(prop, tier):
         sdir = os.path.join(wd, "starts")
         os.makedirs(sdir, exist_ok=True)
         starts = []
-        for k_ in range(40):
+        for k_ in range(200):
             content, L, meta = gen.gen_case(C.seed(), 993000 + k_, force=["sparse_ids"])
-            if meta["shape"]["nframes"] >= 1 and meta["shape"]["npts"] >= 1 and len(content["groups"]) >= 3 and max(g["id"] for g in content["groups"]) > len(content["groups"]) and max(g["id"] for g in content["groups"]) < 100 and "empty_analog" not in meta["variants"]:
+            if meta["shape"]["nframes"] >= 1 and meta["shape"]["npts"] >= 1 and len(content["groups"]) >= 3 and max(g["id"] for g in content["groups"]) > len(content["groups"]) and max(g["id"] for g in content["groups"]) < 100 and "empty_analog" not in meta["variants"] and meta["shape"].get("labels") == "equal" and "labels_vs_points" not in meta["variants"]:
                 p_ = os.path.join(sdir, "sparse_ids.c3d")
                 open(p_, "wb").write(c3dref.encode(content, L))
                 starts.append(("loaded_sparse_group_ids", p_))
